@@ -227,4 +227,25 @@ func init() {
 		Variant{Name: "receiver drops a connection accepted at shutdown", Property: "C10", File: rcv,
 			Old: "\t\tif conn != nil {\n\t\t\t// Accepted just as we shut down: nobody will use this connection\n\t\t\t_ = conn.Close()\n\t\t}\n", New: "", Expect: "O10.4"},
 	)
+	// ---- C11
+	mcc := "transport/grpcutil/multi_client_conn.go"
+	gmm := "transport/mux/grpc_mux_manager.go"
+	addVariants(
+		Variant{Name: "delete from muxes without notifyChange", Property: "C11", File: mmm,
+			Old: "\tdelete(m.muxes, id)\n\tm.notifyChange()\n", New: "\tdelete(m.muxes, id)\n", Expect: "O11.1"},
+		Variant{Name: "notify after the lock was released", Property: "C11", File: mmm,
+			Old: "\tdelete(m.muxes, id)\n\tm.notifyChange()\n\tm.muxesLock.Unlock()", New: "\tdelete(m.muxes, id)\n\tm.muxesLock.Unlock()\n\tm.notifyChange()", Expect: "O11.1"},
+		Variant{Name: "client keeps the manager's own map", Property: "C11", File: mcc,
+			Old: "// OnConnectionListUpdate satisfies mux.OnConnectionListUpdate\nfunc (mcc *MultiClientConn) OnConnectionListUpdate(muxes map[string]session.ManagedMuxSession) {\n", New: "var lastMuxesSeen map[string]session.ManagedMuxSession\n\n// OnConnectionListUpdate satisfies mux.OnConnectionListUpdate\nfunc (mcc *MultiClientConn) OnConnectionListUpdate(muxes map[string]session.ManagedMuxSession) {\n\tlastMuxesSeen = muxes\n", Expect: "O11.2"},
+		Variant{Name: "resolver updated outside the lock", Property: "C11", File: mcc,
+			Old: "\tmcc.connMapLock.Lock()\n\tdefer mcc.connMapLock.Unlock()\n\tmcc.connMap = conns\n\tmcc.resolver.UpdateState(mcc.deriveStateFromConns())", New: "\tmcc.connMapLock.Lock()\n\tmcc.connMap = conns\n\tstate := mcc.deriveStateFromConns()\n\tmcc.connMapLock.Unlock()\n\tmcc.resolver.UpdateState(state)", Expect: "O11.3"},
+		Variant{Name: "one session's opener used for every key", Property: "C11", File: mcc,
+			Old: "\tfor k, v := range muxes {\n\t\tconnMap[k] = v.Open\n\t}", New: "\tvar first session.ManagedMuxSession\n\tfor k, v := range muxes {\n\t\tif first == nil {\n\t\t\tfirst = v\n\t\t}\n\t\tconnMap[k] = first.Open\n\t}", Expect: "O11.2"},
+		Variant{Name: "listener not registered with the mux manager", Property: "C11", File: gmm,
+			Old: "\t\t[]OnConnectionListUpdate{listener.OnConnectionListUpdate},", New: "\t\t[]OnConnectionListUpdate{},", Expect: "O11.4"},
+		Variant{Name: "servers manage each other's client", Property: "C11", File: cc,
+			Old: "\t\tmanagedClient:     cc.outboundClient,\n", New: "\t\tmanagedClient:     cc.inboundClient,\n", Expect: "O11.4"},
+		Variant{Name: "missing address dials the first session", Property: "C11", File: mcc,
+			Old: "\t\treturn nil, fmt.Errorf(\"connection key %s didn't match a connection\", addr)", New: "\t\tmcc.connMapLock.RLock()\n\t\tdefer mcc.connMapLock.RUnlock()\n\t\tfor _, fn := range mcc.connMap {\n\t\t\treturn fn()\n\t\t}\n\t\treturn nil, nil", Expect: "O11.3"},
+	)
 }
